@@ -67,7 +67,10 @@ def judge(b, off, ref):
     n1 = nf.parse(ref[1], 0, ref[0]) if ref else None
     if n1 is None:
         return "excluded:reference_rejects"
-    if nf.superfluous(n1) or not lock_ok(b):
+    # a prefix without effect puts a string outside the C01 space - except in front of a direct relative branch, whose length
+    # and target the architecture defines whatever hint / segment / repeated size prefix precedes it
+    sup = nf.superfluous(n1) or nf.repeated_prefix(b)
+    if not lock_ok(b):
         return "excluded:superfluous_prefix"
     try:
         i = x86mnemo.dis(VStream(b, off))
@@ -78,6 +81,8 @@ def judge(b, off, ref):
     if i.l != ref[0]:
         return "excluded:length_disagreement(C01)"
     mn = n1.mn
+    if sup and disp_info(b, i.l, mn) is None:
+        return "excluded:superfluous_prefix"
     try:
         nxt = i.getnextflow()
         bk, sp, dt = bool(i.breakflow()), bool(i.splitflow()), bool(i.dstflow())
